@@ -1,12 +1,17 @@
 /-
-  Value-context lowering, part 2: semantics of compileExpr (leaves, not, relational) and the exits of
-  compileLogicalOpExprAux.
+  Value-context lowering, part 2: semantics of compileExpr on leaves and constants, of ONE OPERAND compiled through
+  compileExprWith(K)MVPropagation (the operand lemma: when Propagate(K)MV pops, what it popped was the operand's
+  own single instruction into its own scratch register), of unary operators, of the two operands of a binary
+  operator, of compileRelationalOpExpr(Aux).
 -/
 import GLua.Proofs.LoweringValue
+
+set_option linter.unusedSectionVars false
 
 namespace GLua.Lowering
 open GLua.Compile GLua.MiniVM GLua.CondSpec
 
+variable [NumStruct]
 variable {V : Type}
 
 def FullFrame (reg : Nat) (ρ ρ' : Nat → V) : Prop := ∀ x, x < reg → ρ' x = ρ x
@@ -18,6 +23,8 @@ theorem FullFrame.refl (reg : Nat) (ρ : Nat → V) : FullFrame reg ρ ρ := fun
 theorem DestFrame.refl (reg sreg : Nat) (ρ : Nat → V) : DestFrame reg sreg ρ ρ := fun _ _ _ => rfl
 theorem FullFrame.trans {reg : Nat} {ρ ρ1 ρ2 : Nat → V} (h1 : FullFrame reg ρ ρ1) (h2 : FullFrame reg ρ1 ρ2) : FullFrame reg ρ ρ2 :=
   fun x hx => by rw [h2 x hx, h1 x hx]
+theorem FullFrame.mono {reg reg' : Nat} {ρ ρ1 : Nat → V} (h : FullFrame reg' ρ ρ1) (hle : reg ≤ reg') : FullFrame reg ρ ρ1 :=
+  fun x hx => h x (Nat.lt_of_lt_of_le hx hle)
 theorem DestFrame.trans {reg sreg : Nat} {ρ ρ1 ρ2 : Nat → V} (h1 : DestFrame reg sreg ρ ρ1) (h2 : DestFrame reg sreg ρ1 ρ2) :
     DestFrame reg sreg ρ ρ2 := fun x hx hs => by rw [h2 x hx hs, h1 x hx hs]
 theorem DestFrame.setReg {reg sreg : Nat} {ρ ρ1 : Nat → V} (h : DestFrame reg sreg ρ ρ1) (v : V) :
@@ -27,7 +34,7 @@ theorem DestFrame.setReg {reg sreg : Nat} {ρ ρ1 : Nat → V} (h : DestFrame re
     registers below `reg` other than the destination are unchanged. -/
 def ExprSem (d : Dom V) (e : Cond) : Prop :=
   ∀ (st F : CState) (reg : Nat) (ec : ExpCtx) (ρ γ : Nat → V) (v : V),
-    st.regTop ≤ reg → LocalsBelow reg e → reg + 1 < 256 → savereg ec reg ≤ reg →
+    st.regTop ≤ reg → LocalsBelow reg e → reg + rh e < 256 → savereg ec reg ≤ reg →
     eval d ρ γ e = some v → (∀ L, LabelOK F L) →
     (comp e (.expr reg ec) st).st.code <+: F.code →
     (comp e (.expr reg ec) st).st.consts <+: F.consts →
@@ -35,6 +42,59 @@ def ExprSem (d : Dom V) (e : Cond) : Prop :=
         getLabelPc F L = getLabelPc (comp e (.expr reg ec) st).st L) →
     ∃ ρ', Reaches d (P0 F) F.consts ⟨st.code.length, ρ, γ⟩ ⟨(comp e (.expr reg ec) st).st.code.length, ρ', γ⟩ ∧
       ρ' (savereg ec reg) = v ∧ DestFrame reg (savereg ec reg) ρ ρ'
+
+/-! ### constants -/
+
+/-- one LOADK of a pool constant into the destination. -/
+theorem loadK_sem (d : Dom V) (k : Konst) (st F : CState) (reg : Nat) (ec : ExpCtx) (ρ γ : Nat → V)
+    (hF : (loadK k reg ec st).st.code <+: F.code) (hK : (loadK k reg ec st).st.consts <+: F.consts) :
+    Reaches d (P0 F) F.consts ⟨st.code.length, ρ, γ⟩
+      ⟨(loadK k reg ec st).st.code.length, setReg ρ (savereg ec reg) (Env.konst d k), γ⟩ := by
+  obtain ⟨hk1, _, hk3, _⟩ := constIndex_spec st k
+  have hc := code_at_end (st := (constIndex st k).1) (i := .loadk (savereg ec reg) (constIndex st k).2) (by simp [loadK]) hF
+  rw [hk3] at hc
+  have hkF := prefix_get_some hK (by simpa [loadK] using hk1)
+  refine Reaches.single ?_
+  simp [step, P0_get_nonjmp hc rfl, loadK, hkF, hk3]
+
+/-- constant folding is sound for the manual's semantics: a tree that folds to the number x evaluates to x
+    (by the two laws of `Dom.Lawful` about arithmetic on numbers). -/
+theorem lnum_eval (d : Dom V) (hd : d.Lawful) (ρ γ : Nat → V) : ∀ (e : Cond) (x : NumStruct.N), lnum e = some x →
+    eval d ρ γ e = some (d.num x) := by
+  intro e
+  induction e with
+  | num n => intro x h; simp only [lnum, Option.some.injEq] at h; subst h; rfl
+  | arith op l r ihl ihr =>
+    intro x h
+    simp only [lnum] at h
+    cases hl : lnum l with
+    | none => simp [hl] at h
+    | some a =>
+      cases hr : lnum r with
+      | none => simp [hl, hr] at h
+      | some b =>
+        simp only [hl, hr, Option.some.injEq] at h
+        subst h
+        simp only [eval, ihl a hl, ihr b hr, hd.arith_num]
+  | unm c ih =>
+    intro x h
+    simp only [lnum] at h
+    cases hc : lnum c with
+    | none => simp [hc] at h
+    | some a =>
+      simp only [hc, Option.some.injEq] at h
+      subst h
+      simp only [eval, ih a hc, hd.unm_num]
+  | _ => intro x h; simp [lnum] at h
+
+theorem konstOf_eval (d : Dom V) (hd : d.Lawful) (ρ γ : Nat → V) (e : Cond) (k : Konst) (h : konstOf e = some k) :
+    eval d ρ γ e = some (Env.konst d k) := by
+  cases e
+  case str s => simp only [konstOf, Option.some.injEq] at h; subst h; rfl
+  all_goals
+    simp only [konstOf, Option.map_eq_some_iff] at h
+    obtain ⟨x, hx, rfl⟩ := h
+    exact lnum_eval d hd ρ γ _ x hx
 
 /-- a leaf in expression mode: one instruction. -/
 theorem leafExpr_sem (d : Dom V) (e : Cond) (he : isLeaf e = true) (st F : CState) (reg : Nat) (ec : ExpCtx) (ρ γ : Nat → V) (v : V)
@@ -59,20 +119,10 @@ theorem leafExpr_sem (d : Dom V) (e : Cond) (he : isLeaf e = true) (st F : CStat
     simp [step, P0_get_nonjmp hc rfl, leafExpr, fillNil_one]
   case num n =>
     simp only [eval, Option.some.injEq] at hev; subst hev
-    obtain ⟨hk1, _, hk3, _⟩ := constIndex_spec st (.num n)
-    have hc := code_at_end (st := (constIndex st (.num n)).1) (i := .loadk (savereg ec reg) (constIndex st (.num n)).2) (by simp [leafExpr]) hF
-    rw [hk3] at hc
-    have hkF := prefix_get_some hK (by simpa [leafExpr] using hk1)
-    refine Reaches.single ?_
-    simp [step, P0_get_nonjmp hc rfl, leafExpr, hkF, hk3, Env.konst]
+    exact loadK_sem d (.num (NumStruct.lit n)) st F reg ec ρ γ hF hK
   case str n =>
     simp only [eval, Option.some.injEq] at hev; subst hev
-    obtain ⟨hk1, _, hk3, _⟩ := constIndex_spec st (.str n)
-    have hc := code_at_end (st := (constIndex st (.str n)).1) (i := .loadk (savereg ec reg) (constIndex st (.str n)).2) (by simp [leafExpr]) hF
-    rw [hk3] at hc
-    have hkF := prefix_get_some hK (by simpa [leafExpr] using hk1)
-    refine Reaches.single ?_
-    simp [step, P0_get_nonjmp hc rfl, leafExpr, hkF, hk3, Env.konst]
+    exact loadK_sem d (.str n) st F reg ec ρ γ hF hK
   case loc r =>
     simp only [eval, Option.some.injEq] at hev; subst hev
     have hc := code_at_end (st := st) (i := .move (savereg ec reg) r) (by simp [leafExpr]) hF
@@ -91,46 +141,85 @@ theorem exprSem_leaf (d : Dom V) (e : Cond) (he : isLeaf e = true) : ExprSem d e
   rw [comp_leaf_expr e he] at hF hK ⊢
   exact ⟨_, leafExpr_sem d e he st F reg ec ρ γ v hloc hev hF hK, setReg_same _ _ _, fun x _ hs => setReg_other _ _ hs⟩
 
+/-- an expression that `constFold` turns into the constant x: one LOADK, and x is the manual's value. -/
+theorem exprSem_folded (d : Dom V) (hd : d.Lawful) (e : Cond) (x : NumStruct.N) (hx : lnum e = some x)
+    (hcomp : ∀ st reg ec, comp e (.expr reg ec) st = loadK (.num x) reg ec st) : ExprSem d e := by
+  intro st F reg ec ρ γ v _ _ _ _ hev _ hF hK _
+  rw [hcomp] at hF hK ⊢
+  have hv := lnum_eval d hd ρ γ e x hx
+  rw [hev] at hv
+  cases hv
+  exact ⟨_, loadK_sem d (.num x) st F reg ec ρ γ hF hK, setReg_same _ _ _, fun y _ hs => setReg_other _ _ hs⟩
 
-theorem notExpr_general (c : Cond) (sub : CState → Res) (reg : Nat) (ec : ExpCtx) (st : CState)
-    (hne : c ≠ .tru ∧ c ≠ .fls ∧ c ≠ .nil) :
-    notExpr c sub reg ec st =
-      { st := emit (withPropagation false c.isLogical (sub st) reg).1 (.not (savereg ec reg) (withPropagation false c.isLogical (sub st) reg).2.1),
-        inc := if savereg ec reg < reg then 0 else 1 } := by
-  cases c <;> simp_all [notExpr]
+/-! ### one operand through compileExprWith(K)MVPropagation -/
 
-/-- the operand of `not`: its value ends up in the register the propagation reports; nothing below `reg` changes. -/
-theorem notOperand_sem (d : Dom V) (c : Cond) (hfr : ExprFrame c) (hc : ExprSem d c)
+/-- **the operand lemma.**  After the code of one operand (compiled at the free register `reg`, then passed through
+    PropagateKMV / PropagateMV) the operand's value is where the returned operand field says: in a local below `reg`
+    (the popped `MOVE reg r`), in the constant pool (the popped `LOADK reg k`, KMV only), or in `reg` itself; every
+    register below `reg` is unchanged, and the operand field is below the next free register (or a constant), so the
+    code of a following operand cannot overwrite it. -/
+theorem opr_sem (d : Dom V) (hd : d.Lawful) (kmv : Bool) (c : Cond) (hfr : ExprFrame c) (hc : ExprSem d c)
     (st F : CState) (reg : Nat) (ρ γ : Nat → V) (vc : V)
-    (htop : st.regTop ≤ reg) (hloc : LocalsBelow reg c) (hreg : reg + 1 < 256) (hev : eval d ρ γ c = some vc)
+    (htop : st.regTop ≤ reg) (hloc : LocalsBelow reg c) (hreg : reg + rh c < 256) (hev : eval d ρ γ c = some vc)
     (hok : ∀ L, LabelOK F L)
-    (hF : (withPropagation false c.isLogical (comp c (.expr reg ecnone0) st) reg).1.code <+: F.code)
-    (hK : (withPropagation false c.isLogical (comp c (.expr reg ecnone0) st) reg).1.consts <+: F.consts)
-    (hlab : ∀ L, st.labelId ≤ L → L < (withPropagation false c.isLogical (comp c (.expr reg ecnone0) st) reg).1.labelId →
-        getLabelPc F L = getLabelPc (withPropagation false c.isLogical (comp c (.expr reg ecnone0) st) reg).1 L) :
-    ∃ ρ1, Reaches d (P0 F) F.consts ⟨st.code.length, ρ, γ⟩
-        ⟨(withPropagation false c.isLogical (comp c (.expr reg ecnone0) st) reg).1.code.length, ρ1, γ⟩ ∧
-      ρ1 (withPropagation false c.isLogical (comp c (.expr reg ecnone0) st) reg).2.1 = vc ∧ FullFrame reg ρ ρ1 := by
-  obtain ⟨_, _, _, hlast⟩ := hfr st reg ecnone0 htop
-  by_cases hleaf : isLeaf c = true
-  · have hw : withPropagation false c.isLogical (comp c (.expr reg ecnone0) st) reg = opnd false c reg st := by
-      rw [comp_leaf_expr c hleaf, isLogical_leaf c hleaf]; rfl
-    rw [hw] at hF hK ⊢
-    obtain ⟨ρ1, hr1, hag1, hrk1, -, -, -, h256⟩ := opnd_sem d false c reg st F ρ γ vc hleaf htop hloc (by omega) hev hF hK
-    refine ⟨ρ1, hr1, ?_, fun x hx => hag1 x (by omega)⟩
-    rw [rk_reg (h256 rfl)] at hrk1; exact Option.some.inj hrk1
-  · have hw : withPropagation false c.isLogical (comp c (.expr reg ecnone0) st) reg =
-        ((comp c (.expr reg ecnone0) st).st, reg, reg + (comp c (.expr reg ecnone0) st).inc) := by
-      by_cases hlog : c.isLogical = true
-      · simp only [withPropagation, hlog, if_true]
-      · have hlog' : c.isLogical = false := by simpa using hlog
-        have hleaf' : isLeaf c = false := by simpa using hleaf
-        simp only [withPropagation, hlog', Bool.false_eq_true, if_false]
-        exact propagate_lastOK _ _ _ _ _ (hlast hleaf' hlog')
-    rw [hw] at hF hK hlab ⊢
+    (hF : (opr kmv c reg st).1.code <+: F.code) (hK : (opr kmv c reg st).1.consts <+: F.consts)
+    (hlab : ∀ L, st.labelId ≤ L → L < (opr kmv c reg st).1.labelId → getLabelPc F L = getLabelPc (opr kmv c reg st).1 L) :
+    ∃ ρ1, Reaches d (P0 F) F.consts ⟨st.code.length, ρ, γ⟩ ⟨(opr kmv c reg st).1.code.length, ρ1, γ⟩ ∧
+      FullFrame reg ρ ρ1 ∧ rkValue d F.consts ρ1 (opr kmv c reg st).2.1 = some vc ∧
+      ((opr kmv c reg st).2.1 < (opr kmv c reg st).2.2 ∨ 256 ≤ (opr kmv c reg st).2.1) ∧
+      (kmv = false → (opr kmv c reg st).2.1 < 256) := by
+  have hreg' : reg < 256 := by omega
+  rcases opr_cases kmv c st reg (hfr st reg ecnone0 htop) htop with ⟨k, hk, h⟩ | ⟨r, hr, h⟩ | ⟨_, _, h⟩
+  · -- a constant: opnd_sem_konst
+    have hv := konstOf_eval d hd ρ γ c k hk
+    rw [hev] at hv; cases hv
+    obtain ⟨ρ1, hr1, hag1, hrk1, hst1, _, _, h256⟩ := opnd_sem_konst d kmv reg st F ρ γ k _ hreg' h hF hK
+    exact ⟨ρ1, hr1, fun x hx => hag1 x (by omega), hrk1, hst1, h256⟩
+  · -- a local: no code at all
+    subst hr
+    simp only [eval, Option.some.injEq] at hev; subst hev
+    simp only [LocalsBelow] at hloc
+    rw [h]
+    exact ⟨ρ, .refl _, FullFrame.refl _ _, rk_reg (show r < 256 by omega), Or.inl hloc, fun _ => by show r < 256; omega⟩
+  · -- anything else: its value is in `reg`
+    rw [h] at hF hK hlab ⊢
     obtain ⟨ρ1, hr1, hv1, hd1⟩ := hc st F reg ecnone0 ρ γ vc htop hloc hreg (by rw [savereg_ecnone0]; exact Nat.le_refl _) hev hok hF hK hlab
     rw [savereg_ecnone0] at hv1 hd1
-    exact ⟨ρ1, hr1, hv1, fun x hx => hd1 x hx (by omega)⟩
+    refine ⟨ρ1, hr1, fun x hx => hd1 x hx (by omega), ?_, Or.inl (Nat.lt_succ_self _), fun _ => hreg'⟩
+    simp only []
+    rw [rk_reg hreg', hv1]
+
+/-! ### unary operators (NOT, UNM, LEN) -/
+
+/-- `compileUnaryOpExpr`'s general tail: operand through PropagateMV, then one instruction `mk a b` whose meaning is
+    `R(a) := f(R(b))`. -/
+theorem unop_sem (d : Dom V) (hd : d.Lawful) (mk : Nat → Nat → Instr) (f : V → Option V) (c : Cond) (hfr : ExprFrame c) (hc : ExprSem d c)
+    (hmk : ∀ a b, (mk a b).isJmp = false)
+    (hstep : ∀ (code : List Instr) (consts : List Konst) (p a b : Nat) (ρ γ : Nat → V) (v : V), code[p]? = some (mk a b) → b < 256 →
+        f (ρ b) = some v → step d code consts ⟨p, ρ, γ⟩ = .ok ⟨p + 1, setReg ρ a v, γ⟩)
+    (st F : CState) (reg : Nat) (ec : ExpCtx) (ρ γ : Nat → V) (vc v : V)
+    (htop : st.regTop ≤ reg) (hloc : LocalsBelow reg c) (hreg : reg + rh c < 256) (hev : eval d ρ γ c = some vc) (hf : f vc = some v)
+    (hok : ∀ L, LabelOK F L)
+    (hF : (unopExpr mk c.isLogical (fun s => comp c (.expr reg ecnone0) s) reg ec st).st.code <+: F.code)
+    (hK : (unopExpr mk c.isLogical (fun s => comp c (.expr reg ecnone0) s) reg ec st).st.consts <+: F.consts)
+    (hlab : ∀ L, st.labelId ≤ L → L < (unopExpr mk c.isLogical (fun s => comp c (.expr reg ecnone0) s) reg ec st).st.labelId →
+        getLabelPc F L = getLabelPc (unopExpr mk c.isLogical (fun s => comp c (.expr reg ecnone0) s) reg ec st).st L) :
+    ∃ ρ', Reaches d (P0 F) F.consts ⟨st.code.length, ρ, γ⟩
+        ⟨(unopExpr mk c.isLogical (fun s => comp c (.expr reg ecnone0) s) reg ec st).st.code.length, ρ', γ⟩ ∧
+      ρ' (savereg ec reg) = v ∧ DestFrame reg (savereg ec reg) ρ ρ' := by
+  obtain ⟨_, _, hst⟩ := unop_frame mk c hfr st reg ec htop
+  rw [hst] at hF hK hlab ⊢
+  obtain ⟨ρ1, hr1, hf1, hrk1, _, h256⟩ := opr_sem d hd false c hfr hc st F reg ρ γ vc htop hloc hreg hev hok
+    (List.IsPrefix.trans (by simp) hF) (by simpa using hK) (by simpa [getLabelPc] using hlab)
+  have hb := h256 rfl
+  rw [rk_reg hb] at hrk1
+  have hv1 : ρ1 (opr false c reg st).2.1 = vc := Option.some.inj hrk1
+  have hcd : F.code[(opr false c reg st).1.code.length]? = some (mk (savereg ec reg) (opr false c reg st).2.1) := by
+    apply prefix_get_some hF; simp
+  refine ⟨setReg ρ1 (savereg ec reg) v, ?_, setReg_same _ _ _, (hf1.dest).setReg _⟩
+  refine hr1.trans (Reaches.single ?_)
+  have := hstep (P0 F) F.consts _ _ _ ρ1 γ v (P0_get_nonjmp hcd (hmk _ _)) hb (by rw [hv1]; exact hf)
+  simpa using this
 
 theorem exprSem_not (d : Dom V) (hd : d.Lawful) (c : Cond) (hfr : ExprFrame c) (hc : ExprSem d c) : ExprSem d (.not c) := by
   intro st F reg ec ρ γ v htop hloc hreg hsreg hev hok hF hK hlab
@@ -162,16 +251,135 @@ theorem exprSem_not (d : Dom V) (hd : d.Lawful) (c : Cond) (hfr : ExprFrame c) (
     exact simple 1 (by simp [hd.nil_falsy]) (by simp [notExpr])
   rw [notExpr_general c _ reg ec st ⟨h1, h2, h3⟩] at hF hK hlab ⊢
   simp only [LocalsBelow] at hloc
-  obtain ⟨ρ1, hr1, hv1, hf1⟩ := notOperand_sem d c hfr hc st F reg ρ γ vc htop hloc hreg hvc hok
-    (List.IsPrefix.trans (by simp) hF) (by simpa using hK) (by simpa [getLabelPc] using hlab)
-  have hcd : F.code[(withPropagation false c.isLogical (comp c (.expr reg ecnone0) st) reg).1.code.length]? =
-      some (.not (savereg ec reg) (withPropagation false c.isLogical (comp c (.expr reg ecnone0) st) reg).2.1) := by
-    apply prefix_get_some hF; simp
-  refine ⟨setReg ρ1 (savereg ec reg) (if d.truthy vc = true then d.falseV else d.trueV), ?_, setReg_same _ _ _, ?_⟩
-  · refine hr1.trans (Reaches.single ?_)
-    simp [step, P0_get_nonjmp hcd rfl, hv1]
-  · exact (hf1.dest).setReg _
+  simp only [rh] at hreg
+  exact unop_sem d hd .not (fun x => some (if d.truthy x = true then d.falseV else d.trueV)) c hfr hc (fun _ _ => rfl)
+    (fun code consts p a b ρ γ v hcd _ hv => by
+      simp only [Option.some.injEq] at hv; subst hv
+      simp [step, hcd])
+    st F reg ec ρ γ vc _ htop hloc hreg hvc rfl hok hF hK hlab
 
+theorem exprSem_len (d : Dom V) (hd : d.Lawful) (c : Cond) (hfr : ExprFrame c) (hc : ExprSem d c) : ExprSem d (.len c) := by
+  intro st F reg ec ρ γ v htop hloc hreg hsreg hev hok hF hK hlab
+  simp only [comp] at hF hK hlab ⊢
+  simp only [eval] at hev
+  cases hvc : eval d ρ γ c with
+  | none => simp [hvc] at hev
+  | some vc =>
+    simp only [hvc] at hev
+    simp only [LocalsBelow] at hloc
+    simp only [rh] at hreg
+    exact unop_sem d hd .len d.len c hfr hc (fun _ _ => rfl)
+      (fun code consts p a b ρ γ v hcd hb hv => by
+        simp [step, hcd, rk_reg hb, hv, opStep])
+      st F reg ec ρ γ vc v htop hloc hreg hvc hev hok hF hK hlab
+
+theorem exprSem_unm (d : Dom V) (hd : d.Lawful) (c : Cond) (hfr : ExprFrame c) (hc : ExprSem d c) : ExprSem d (.unm c) := by
+  cases hfold : lnum (.unm c) with
+  | some x =>
+    exact exprSem_folded d hd (.unm c) x hfold (fun st reg ec => by simp only [comp, hfold, unmExpr])
+  | none =>
+    intro st F reg ec ρ γ v htop hloc hreg hsreg hev hok hF hK hlab
+    simp only [comp, hfold, unmExpr] at hF hK hlab ⊢
+    simp only [eval] at hev
+    cases hvc : eval d ρ γ c with
+    | none => simp [hvc] at hev
+    | some vc =>
+      simp only [hvc] at hev
+      simp only [LocalsBelow] at hloc
+      simp only [rh] at hreg
+      exact unop_sem d hd .unm d.unm c hfr hc (fun _ _ => rfl)
+        (fun code consts p a b ρ γ v hcd hb hv => by
+          simp [step, hcd, rk_reg hb, hv, opStep])
+        st F reg ec ρ γ vc v htop hloc hreg hvc hev hok hF hK hlab
+
+/-! ### the two operands of a binary operator -/
+
+/-- **both operands, left to right**: the code of `b := reg; …KMV(Lhs); c := reg; …KMV(Rhs)` is the code of the left
+    operand followed by the code of the right operand.  Running it passes through the MIDPOINT behind the left operand's
+    code, where the left operand field already denotes the left value and no instruction of the right operand has run;
+    at the end both operand fields denote the two values (the left one has survived the code of the right one) and
+    every register below `reg` is unchanged. -/
+theorem bops_sem_mid (d : Dom V) (hd : d.Lawful) (l r : Cond) (hfl : ExprFrame l) (hfr : ExprFrame r) (hl : ExprSem d l) (hr : ExprSem d r)
+    (st F : CState) (reg : Nat) (ρ γ : Nat → V) (x y : V)
+    (htop : st.regTop ≤ reg) (hll : LocalsBelow reg l) (hlr : LocalsBelow reg r) (hreg : reg + max (rh l) (rh r + 1) < 256)
+    (hx : eval d ρ γ l = some x) (hy : eval d ρ γ r = some y) (hok : ∀ L, LabelOK F L)
+    (hF : (bops l r st reg).1.code <+: F.code) (hK : (bops l r st reg).1.consts <+: F.consts)
+    (hlab : ∀ L, st.labelId ≤ L → L < (bops l r st reg).1.labelId → getLabelPc F L = getLabelPc (bops l r st reg).1 L) :
+    (opr true l reg st).1.code <+: (bops l r st reg).1.code ∧
+    ∃ ρ1 ρ2, Reaches d (P0 F) F.consts ⟨st.code.length, ρ, γ⟩ ⟨(opr true l reg st).1.code.length, ρ1, γ⟩ ∧
+      rkValue d F.consts ρ1 (bops l r st reg).2.1 = some x ∧ FullFrame reg ρ ρ1 ∧
+      Reaches d (P0 F) F.consts ⟨(opr true l reg st).1.code.length, ρ1, γ⟩ ⟨(bops l r st reg).1.code.length, ρ2, γ⟩ ∧
+      FullFrame reg ρ ρ2 ∧
+      rkValue d F.consts ρ2 (bops l r st reg).2.1 = some x ∧ rkValue d F.consts ρ2 (bops l r st reg).2.2 = some y := by
+  rw [bops_eq] at hF hK hlab ⊢
+  obtain ⟨f1, hle1, hr1le, hr1le'⟩ := opr_frame true l st reg (hfl st reg ecnone0 htop) htop
+  have htop2 : (opr true l reg st).1.regTop ≤ (opr true l reg st).2.2 := by rw [f1.regTop]; omega
+  obtain ⟨f2, hle2, _, _⟩ := opr_frame true r (opr true l reg st).1 (opr true l reg st).2.2 (hfr _ _ ecnone0 htop2) htop2
+  obtain ⟨ρ1, hreach1, hf1, hrk1, hst1, _⟩ := opr_sem d hd true l hfl hl st F reg ρ γ x htop hll (by omega) hx hok
+    (f2.code.trans hF) (f2.consts.trans hK)
+    (fun L h1 h2 => by rw [hlab L (by have := f1.labelId; omega) (by have := f2.labelId; simp only [] at *; omega), f2.labels L h2])
+  have hy1 : eval d ρ1 γ r = some y := by rw [eval_congr d hf1 r hlr, hy]
+  obtain ⟨ρ2, hreach2, hf2, hrk2, _, _⟩ := opr_sem d hd true r hfr hr (opr true l reg st).1 F (opr true l reg st).2.2 ρ1 γ y htop2
+    (LocalsBelow.mono hr1le r hlr) (by omega) hy1 hok hF hK
+    (fun L h1 h2 => hlab L (by have := f1.labelId; omega) h2)
+  refine ⟨f2.code, ρ1, ρ2, hreach1, hrk1, hf1, hreach2, hf1.trans (hf2.mono hr1le), ?_, hrk2⟩
+  simp only []
+  rw [rk_congr d (ρ1 := ρ1)]
+  · exact hrk1
+  · intro _
+    apply hf2
+    rcases hst1 with h | h <;> omega
+
+theorem bops_sem (d : Dom V) (hd : d.Lawful) (l r : Cond) (hfl : ExprFrame l) (hfr : ExprFrame r) (hl : ExprSem d l) (hr : ExprSem d r)
+    (st F : CState) (reg : Nat) (ρ γ : Nat → V) (x y : V)
+    (htop : st.regTop ≤ reg) (hll : LocalsBelow reg l) (hlr : LocalsBelow reg r) (hreg : reg + max (rh l) (rh r + 1) < 256)
+    (hx : eval d ρ γ l = some x) (hy : eval d ρ γ r = some y) (hok : ∀ L, LabelOK F L)
+    (hF : (bops l r st reg).1.code <+: F.code) (hK : (bops l r st reg).1.consts <+: F.consts)
+    (hlab : ∀ L, st.labelId ≤ L → L < (bops l r st reg).1.labelId → getLabelPc F L = getLabelPc (bops l r st reg).1 L) :
+    ∃ ρ2, Reaches d (P0 F) F.consts ⟨st.code.length, ρ, γ⟩ ⟨(bops l r st reg).1.code.length, ρ2, γ⟩ ∧
+      FullFrame reg ρ ρ2 ∧
+      rkValue d F.consts ρ2 (bops l r st reg).2.1 = some x ∧ rkValue d F.consts ρ2 (bops l r st reg).2.2 = some y := by
+  obtain ⟨_, ρ1, ρ2, h1, _, _, h2, h3, h4, h5⟩ := bops_sem_mid d hd l r hfl hfr hl hr st F reg ρ γ x y htop hll hlr hreg hx hy hok hF hK hlab
+  exact ⟨ρ2, h1.trans h2, h3, h4, h5⟩
+
+/-! ### relational operators -/
+
+theorem relCode_labelId (op : RelOp) (l r : Cond) (st : CState) (reg flip L : Nat) :
+    (relCode op l r st reg flip L).labelId = (bops l r st reg).1.labelId := rfl
+
+/-- `compileRelationalOpExprAux` with arbitrary operands: the jump is taken iff the truth value of the comparison
+    = (flip = 1); every register below `reg` is unchanged. -/
+theorem relCode_sem (d : Dom V) (hd : d.Lawful) (op : RelOp) (l r : Cond) (hfl : ExprFrame l) (hfr : ExprFrame r) (hl : ExprSem d l) (hr : ExprSem d r)
+    (st F : CState) (reg flip L : Nat) (ρ γ : Nat → V) (v : V)
+    (htop : st.regTop ≤ reg) (hll : LocalsBelow reg l) (hlr : LocalsBelow reg r) (hreg : reg + max (rh l) (rh r + 1) < 256)
+    (hev : eval d ρ γ (.rel op l r) = some v) (hflip : flip = 0 ∨ flip = 1) (hok : ∀ L, LabelOK F L)
+    (hF : (relCode op l r st reg flip L).code <+: F.code) (hK : (relCode op l r st reg flip L).consts <+: F.consts)
+    (hlab : ∀ L', st.labelId ≤ L' → L' < (relCode op l r st reg flip L).labelId →
+        getLabelPc F L' = getLabelPc (relCode op l r st reg flip L) L') :
+    ∃ ρ', Reaches d (P0 F) F.consts ⟨st.code.length, ρ, γ⟩
+        ⟨if d.truthy v = decide (flip = 1) then tgt F L else (relCode op l r st reg flip L).code.length, ρ', γ⟩ ∧
+      FullFrame reg ρ ρ' := by
+  simp only [eval] at hev
+  cases hx : eval d ρ γ l with
+  | none => simp [hx] at hev
+  | some x =>
+    cases hy : eval d ρ γ r with
+    | none => simp [hx, hy] at hev
+    | some y =>
+      simp only [hx, hy] at hev
+      obtain ⟨ρ2, hreach, hf2, hrk1, hrk2⟩ := bops_sem d hd l r hfl hfr hl hr st F reg ρ γ x y htop hll hlr hreg hx hy hok
+        (List.IsPrefix.trans (by simp [relCode]) hF) (by simpa [relCode] using hK)
+        (fun L' h1 h2 => by rw [hlab L' h1 h2]; rfl)
+      have hc1 : F.code[(bops l r st reg).1.code.length]? =
+          some (relInstr op flip (bops l r st reg).2.1 (bops l r st reg).2.2) := by
+        apply prefix_get_some hF; simp [relCode]
+      have hc2 : F.code[(bops l r st reg).1.code.length + 1]? = some (.jmp (L : Int)) := by
+        apply prefix_get_some hF; simp [relCode]
+      have hfin := rel_jmp_sem d hd (γ := γ) hc1 hc2 (hok L) hflip hrk1 hrk2 hev
+      refine ⟨ρ2, ?_, hf2⟩
+      have hlen : (relCode op l r st reg flip L).code.length = (bops l r st reg).1.code.length + 2 := by simp [relCode]
+      rw [hlen]
+      exact hreach.trans hfin
 
 /-- a relational expression yields true or false. -/
 theorem rel_val_bool (d : Dom V) (hd : d.Lawful) {ρ γ : Nat → V} {op : RelOp} {l r : Cond} {v : V}
@@ -186,25 +394,36 @@ theorem rel_val_bool (d : Dom V) (hd : d.Lawful) {ρ γ : Nat → V} {op : RelOp
       simp only [hx, hy] at h
       cases op <;> simp only [relVal, Option.map_eq_some_iff] at h <;> obtain ⟨b, _, rfl⟩ := h <;> rw [truthy_ofBool hd]
 
-theorem exprSem_rel (d : Dom V) (hd : d.Lawful) (op : RelOp) (l r : Cond) (hl : isLeaf l = true) (hr : isLeaf r = true) :
-    ExprSem d (.rel op l r) := by
-  intro st F reg ec ρ γ v htop hloc hreg hsreg hev _ hF hK hlab
-  simp only [comp, newLabel, relAux_leaf l r hl hr] at hF hK hlab ⊢
+theorem exprSem_rel (d : Dom V) (hd : d.Lawful) (op : RelOp) (l r : Cond) (hfl : ExprFrame l) (hfr : ExprFrame r)
+    (hl : ExprSem d l) (hr : ExprSem d r) : ExprSem d (.rel op l r) := by
+  intro st F reg ec ρ γ v htop hloc hreg hsreg hev hok hF hK hlab
+  have hcomp : (comp (.rel op l r) (.expr reg ec) st).st =
+      emit (setLabelHere (emit (relCode op l r { st with labelId := st.labelId + 1 } reg 1 st.labelId)
+                (.loadbool (savereg ec reg) 0 1)) st.labelId) (.loadbool (savereg ec reg) 1 0) := by
+    simp only [comp, newLabel, relAux_eq]; rfl
+  rw [hcomp] at hF hK hlab ⊢
   generalize hs1 : ({ st with labelId := st.labelId + 1 } : CState) = s1 at hF hK hlab ⊢
   have hs1_code : s1.code = st.code := by subst hs1; rfl
   have hs1_top : s1.regTop = st.regTop := by subst hs1; rfl
   have hs1_id : s1.labelId = st.labelId + 1 := by subst hs1; rfl
-  generalize hs2 : relLeaf l r s1 reg op 1 st.labelId = s2 at hF hK hlab ⊢
-  have f2 : Frame 0 s1 s2 := by rw [← hs2]; exact relLeaf_frame l r hl hr s1 reg op 1 st.labelId (by rw [hs1_top]; exact htop)
+  generalize hs2 : relCode op l r s1 reg 1 st.labelId = s2 at hF hK hlab ⊢
+  have f2 : Frame s1.labelId s1 s2 := by
+    rw [← hs2]; exact (relCode_frame op l r hfl hfr s1 reg 1 st.labelId (by rw [hs1_top]; exact htop)).1
   -- the label
   have hjl : getLabelPc F st.labelId = (s2.code.length : Int) := by
     rw [hlab st.labelId (Nat.le_refl _) (by simp; have := f2.labelId; omega)]
     simp [getLabelPc, setLabelHere, setLabelPc, lookupLabel, lastPC]
-  have hjlOK : LabelOK F st.labelId := by unfold LabelOK; omega
   have htgt : tgt F st.labelId = s2.code.length + 1 := by unfold tgt; rw [hjl]; omega
   simp only [LocalsBelow] at hloc
-  obtain ⟨ρ1, hr1, hag1⟩ := relLeaf_sem d hd l r hl hr s1 F reg op 1 st.labelId ρ γ v (by rw [hs1_top]; exact htop) hloc.1 hloc.2 hreg hev
-    (Or.inr rfl) (by rw [hs2]; exact List.IsPrefix.trans (by simp) hF) (by rw [hs2]; simpa using hK) hjlOK
+  simp only [rh] at hreg
+  obtain ⟨ρ1, hr1, hag1⟩ := relCode_sem d hd op l r hfl hfr hl hr s1 F reg 1 st.labelId ρ γ v (by rw [hs1_top]; exact htop) hloc.1 hloc.2 hreg hev
+    (Or.inr rfl) hok (by rw [hs2]; exact List.IsPrefix.trans (by simp) hF) (by rw [hs2]; simpa using hK)
+    (by
+      rw [hs2]
+      intro L' h1 h2
+      rw [hlab L' (by omega) (by simpa using h2)]
+      have hne : st.labelId ≠ L' := by omega
+      simp [getLabelPc, setLabelHere, setLabelPc, lookupLabel, hne])
   rw [hs2, hs1_code] at hr1
   have hc1 : F.code[s2.code.length]? = some (.loadbool (savereg ec reg) 0 1) := by
     apply prefix_get_some hF; simp
